@@ -178,7 +178,7 @@ async def explore(pid, tier, seed, m, v, known, budget_s, extra_cases=None):
     """returns stats dict; reports violations through v"""
     prof = PROFILES[pid]
     rng = random.Random(seed * 7919 + hash(pid) % 1000)
-    nschemas, ndocs = prof["schemas"][0 if tier == "quick" else 1], prof["docs"][0 if tier == "quick" else 1]
+    nschemas, ndocs = fw.scale(prof["schemas"][0 if tier == "quick" else 1]), prof["docs"][0 if tier == "quick" else 1]
     stats = {"evaluations": 0, "nontrivial": set(), "disagreements": [], "oracle_failures": [], "known_hits": {}, "dist": {},
              "with_errors": 0, "data_null": 0, "calls": 0, "samples": []}
     t0 = time.time()
